@@ -53,7 +53,7 @@ class EngineLineCropper(object):
 
     def get_crop_inputs(self, baseline, line_heights, target_height):
         line_heights = [line_heights[0] * self.scale, line_heights[1] * self.scale]
-        coords = np.asarray(baseline).copy().astype(int)
+        coords = np.floor(np.asarray(baseline)).astype(int)
         alfa = math.atan2(coords[-1, 1] - coords[0, 1], coords[-1, 0] - coords[0, 0])
         R = np.array([[np.cos(alfa), np.sin(alfa)], [-np.sin(alfa), np.cos(alfa)]])
         coords = np.dot(coords, np.linalg.inv(R))
